@@ -86,3 +86,4 @@ def count(name, lines, ib, stats, meta):
                 if h and h['props'] is not None:
                     stats['distinct'].add(('hello', tuple(t for t, _ in h['props'])))
                     if len(stats['samples']) < 3: stats['samples'].append({'hello_len': len(o), 'property_types': [t for t, _ in h['props']]})
+EXPLORE = dict(ops=('frame',), mtu=True, skip='~')
